@@ -68,6 +68,10 @@ def MissingName : Prop :=
   ∃ q imp ds n, Reach res fs root rootFile q ∧ imp ∈ importsOf fs root rootFile q ∧
     defsAt fs (res q imp.rel) = some ds ∧ n ∈ namesOf imp.targets ∧ Def.frag n ∉ ds
 
+/-- the resolver either does not know the root's path or maps it to the root document itself
+    (true for both resolvers of the code base: the root is one of the configured / loaded documents) -/
+def RootOK : Prop := ∀ f, fs.lookup root = some f → f = rootFile
+
 /-! ### executable reference -/
 
 def dedup {α : Type} [DecidableEq α] : List α → List α
